@@ -16,6 +16,8 @@ Inductive cast_class :=
   | StateKind                (* declares the storage kind of a registered state / buffer: Generated/AccKinds.v + all_accumulators_wide_or_known *)
   | UnitWeights              (* default weights of value 1 created when the caller gives none *)
   | CountsKind               (* counts take the dtype of an int64 quantity computed from the labels (target.long(), target.sum()) *)
+  | TransportRoundTrip        (* sync: cast to the negotiated transport dtype, cast back to the sender's dtype on receipt:
+                                lossless by send_tensors_lossless_any_dtype (Props/C15.v) *)
   | KnownNarrow (finding : string).   (* narrows a caller-supplied value on its way to an accumulator: recorded finding *)
 
 Definition site := (string * string * string * nat)%type.
@@ -40,6 +42,7 @@ Definition reviewed_casts : list (site * cast_class) := [
   (("ranking/retrieval_recall.py", "RetrievalRecall.compute", "(retrieved / self.num_relevant[i]).float()", 1), FinalResult);
   (("statistical/wasserstein.py", "Wasserstein1D.update", "torch.ones_like(new_samples_dist_1, dtype=torch.float)", 1), UnitWeights);
   (("statistical/wasserstein.py", "Wasserstein1D.update", "torch.ones_like(new_samples_dist_2, dtype=torch.float)", 1), UnitWeights);
+  (("synclib.py", "send_tensors", "result.to(_transport_dtype(dtypes))", 1), TransportRoundTrip);
   (("text/word_error_rate.py", "WordErrorRate.__init__", "torch.tensor(0, dtype=torch.float, device=self.device)", 2), StateKind);
   (("window/mean_squared_error.py", "WindowedMeanSquaredError.merge_state",
     "torch.zeros(self.num_tasks, merge_max_num_updates, dtype=torch.float32, device=self.device)", 2), StateKind)
